@@ -742,9 +742,9 @@ pub fn gen_item(i: usize, seed: u64) -> Directed {
         };
         let (m_i, feat_i, place, mg, g_i, fm) = (dim(14), dim(9), dim(3), dim(3), dim(4), dim(3));
         let f = f1_directed(m_i, feat_i, place as u8, mg, g_i, fm, i);
-        // truncations for the small fonts: always next to the field-width switch, a third of the rest
+        // truncations for the small fonts: always next to the field-width switch, a quarter of the rest
         let near_switch = (254..=257).contains(&f.max_entry);
-        let trunc = f.glyph_count <= 16 && f.max_entry <= 1000 && (near_switch || i % 3 == 0);
+        let trunc = f.glyph_count <= 16 && f.max_entry <= 1000 && (near_switch || i % 4 == 0);
         // sometimes a format-2 extension table next to it
         let iftx = (i % 6 == 5).then(|| {
             let (mut x, _) = f2_directed(2, 0, 0, 1, 0, i);
@@ -765,7 +765,7 @@ pub fn gen_item(i: usize, seed: u64) -> Directed {
         let place = if place == 0 && i % 3 == 2 { 2 } else { place };
         let (f, cps) = f2_directed(n_i, [0, 1, -1][decl], id_i, cp_i, place as u8, i);
         let small = f.entries.len() <= 3;
-        return directed_f2(&f, &cps, small && i % 2 == 0, i % 5 == 4, "", n_i, id_i, cp_i, i % 64 == 7);
+        return directed_f2(&f, &cps, small && i % 3 == 0, i % 5 == 4, "", n_i, id_i, cp_i, i % 64 == 7);
     }
     // ---- random draws over the same dimensions, plus hostile twists on otherwise well-formed tables
     let mut rng = Rng::derive(seed, "iftd", i as u64);
@@ -954,12 +954,22 @@ pub fn run_item(ctx: &mut Ctx, i: usize, seed: u64) {
 
 /// The directed enumeration (complete in both tiers) + budget-sized random draws.
 pub fn sec_directed(ctx: &mut Ctx, items: &mut Items) {
-    let n = N_ENUM + ctx.budget(12_000, 120_000);
+    let n = N_ENUM + ctx.budget(8_000, 120_000);
     let seed = ctx.seed;
+    let timing = std::env::var("VF_C02_TIMING").is_ok();
     for i in 0..n {
         if !items.mine(ctx) {
             continue;
         }
+        // spread the enumeration over the shards (the dimension indices are periodic in i)
+        let i = if i < N_ENUM { (i * 7919) % N_ENUM } else { i };
+        let t0 = vf_core::thread_cpu_ns();
         run_item(ctx, i, seed);
+        if timing {
+            let dt = (vf_core::thread_cpu_ns() - t0) / 1_000_000;
+            if dt > 20 {
+                eprintln!("iftd item {} cpu_ms={} shape={}", i, dt, gen_item(i, seed).shape);
+            }
+        }
     }
 }
